@@ -548,6 +548,7 @@ class Facts:
         ppat = re.compile(r'^\{"rec":"promoted","path":"((?:[^"\\]|\\.)*)"')
         self.promoted = {}
         self.constbodies = {}     # path -> raw line: initialisers of aggregate-valued constants
+        self.constvals = {}       # path -> evaluated value of a struct constant whose fields are all scalars
         self._constagg = {}
         cpat = re.compile(r'^\{"rec":"constbody","path":"((?:[^"\\]|\\.)*)"')
         for stem in targets:
@@ -562,6 +563,10 @@ class Facts:
                     if line.startswith('{"rec":"promoted"'):
                         m = ppat.match(line)
                         self.promoted[json.loads('"' + m.group(1) + '"')] = line
+                        continue
+                    if line.startswith('{"rec":"constval"'):
+                        r = json.loads(line)
+                        self.constvals[r["path"]] = r
                         continue
                     if line.startswith('{"rec":"constbody"'):
                         m = cpat.match(line)
@@ -721,7 +726,7 @@ class Facts:
         if r is None:
             raise Broken("anchor function not found: " + path)
         rec = json.loads(r[0])
-        if self.constbodies:
+        if self.constbodies or self.constvals:
             self._expand_const_aggregates(rec)
         b = Body(rec, r[1])
         self._parsed[path] = b
@@ -736,6 +741,14 @@ class Facts:
         if path in self._constagg:
             return self._constagg[path]
         out = None
+        cv = self.constvals.get(path)
+        if cv is not None:
+            out = {"k": "agg", "ak": "adt", "adt": cv["adt"], "var": cv["var"], "vi": cv["vi"],
+                   "fn": [f["name"] for f in cv["fields"]],
+                   "ops": [{"c": ("true" if f["v"] == "1" else "false") if f["ty"] == "bool" else f["v"], "ty": f["ty"], "v": f["v"]}
+                           for f in cv["fields"]]}
+            self._constagg[path] = out
+            return out
         line = self.constbodies.get(path)
         if line is not None:
             r = json.loads(line)
